@@ -3,6 +3,7 @@ package rules
 import (
 	"fmt"
 	"go/token"
+	"sort"
 	"go/types"
 	"regexp"
 	"strings"
@@ -752,5 +753,465 @@ func (c *Ctx) ERRDROP(rule string, entry ...string) []report.Obligation {
 	}
 	out = append(out, ok2(rule, "inventory", "", fmt.Sprintf("%d error-returning calls in %d reachable functions: every one not listed is consumed on every path", n, len(r.Set))))
 	c.Stats[rule+".calls"] = n
+	return out
+}
+
+// ---------------------------------------------------------------------------
+// REFS: every listed file is looked at. For each (function, reader) pair of the
+// table, the call of the reader lies in a loop over the list of references, and
+// no iteration of that loop can reach the next one without passing through the
+// call (a `continue` on a cache hit, a skip under some flag). Leaving the
+// function (an error return) is not a skip.
+// ---------------------------------------------------------------------------
+
+type RefLoop struct{ Reader, InPkg, What string }
+
+// readers of file references; the loops are found from their call sites, whatever function they live in
+var RefLoops = []RefLoop{
+	{"types.loadEnvFile", "types", "every env_file entry of every service"},
+	{"types.loadLabelFile", "types", "every label_file entry of every service"},
+	{"os.Stat", "dotenv", "every env file named by the caller"},
+	{"os.ReadFile", "dotenv", "every env file named by the caller"},
+	{"dotenv.loadFile", "dotenv", "every env file named by the caller"},
+	{"dotenv.ReadFile", "dotenv", "every env file named by the caller"},
+	{"loader.loadYamlFile", "loader", "every configuration file of the project"},
+}
+
+// naturalLoop returns the smallest natural loop (header, body) that contains block b.
+func naturalLoop(fn *ssa.Function, b *ssa.BasicBlock) (*ssa.BasicBlock, map[*ssa.BasicBlock]bool) {
+	var bestH *ssa.BasicBlock
+	var best map[*ssa.BasicBlock]bool
+	bodies := map[*ssa.BasicBlock]map[*ssa.BasicBlock]bool{}
+	for _, t := range fn.Blocks {
+		for _, h := range t.Succs {
+			if !h.Dominates(t) {
+				continue
+			}
+			body := bodies[h]
+			if body == nil {
+				body = map[*ssa.BasicBlock]bool{h: true}
+				bodies[h] = body
+			}
+			var up func(x *ssa.BasicBlock)
+			up = func(x *ssa.BasicBlock) {
+				if body[x] {
+					return
+				}
+				body[x] = true
+				for _, p := range x.Preds {
+					up(p)
+				}
+			}
+			up(t)
+		}
+	}
+	for h, body := range bodies {
+		if body[b] && (best == nil || len(body) < len(best)) {
+			bestH, best = h, body
+		}
+	}
+	return bestH, best
+}
+
+func (c *Ctx) REFS(rule string, only ...string) []report.Obligation {
+	var out []report.Obligation
+	for _, rl := range RefLoops {
+		if len(only) > 0 {
+			keep := false
+			for _, p := range only {
+				if rl.InPkg == p {
+					keep = true
+				}
+			}
+			if !keep {
+				continue
+			}
+		}
+		inLoops := 0
+		for _, fn := range c.P.Funcs {
+			if !strings.HasPrefix(c.P.FuncID(fn), rl.InPkg+".") {
+				continue
+			}
+			for _, cs := range callSites(fn, func(com *ssa.CallCommon) bool { return c.calleeID(com) == rl.Reader }) {
+				h, body := naturalLoop(fn, cs.Block())
+				if h == nil {
+					continue // a single reference, not a list
+				}
+				inLoops++
+				key := c.P.FuncID(fn) + " :: " + rl.Reader + " on every iteration"
+				// a path header -> ... -> header inside the loop that avoids the call
+				seen := map[*ssa.BasicBlock]bool{}
+				var skip *ssa.BasicBlock
+				var dfs func(b *ssa.BasicBlock)
+				dfs = func(b *ssa.BasicBlock) {
+					if skip != nil || seen[b] || !body[b] || b == cs.Block() {
+						return
+					}
+					seen[b] = true
+					for _, s := range b.Succs {
+						if s == h {
+							skip = b
+							return
+						}
+						dfs(s)
+					}
+				}
+				for _, s := range h.Succs {
+					if s == h {
+						skip = h
+					}
+					dfs(s)
+				}
+				why := ""
+				if skip != nil {
+					last := skip.Instrs[len(skip.Instrs)-1]
+					why = fmt.Sprintf("an iteration can reach the next one without calling %s (through the block ending at %s): a reference is skipped without being read, so a missing file goes unreported", rl.Reader, c.P.InstrPos(last))
+				}
+				out = append(out, verdict(skip == nil, rule, key, c.P.InstrPos(cs), rl.What+" passes through "+rl.Reader+": no path of the loop body reaches the next iteration without the call", why))
+			}
+		}
+		if inLoops == 0 {
+			out = append(out, bad(rule, rl.Reader+" :: called in a loop over the references", "", "no loop in package "+rl.InPkg+" calls "+rl.Reader+" any more: "+rl.What+" is not read, or the reader was renamed and the rule sees nothing"))
+		}
+	}
+	return out
+}
+
+// ---------------------------------------------------------------------------
+// CLASSIFY (C03): "a volume short spec is a bind mount iff its source is a
+// path". Every store of a constant to ServiceVolumeConfig.Type in the short
+// syntax parser is controlled only by branch conditions computed from the
+// Source field of that volume or from the string being parsed: a condition on
+// anything else (the mode flags already recorded, a package variable) makes the
+// classification depend on more than the source.
+// ---------------------------------------------------------------------------
+
+func (c *Ctx) CLASSIFY(rule string) []report.Obligation {
+	var out []report.Obligation
+	n := 0
+	for _, fn := range c.P.Funcs {
+		if !strings.HasPrefix(c.P.FuncID(fn), "format.") {
+			continue
+		}
+		for _, b := range fn.Blocks {
+			for _, in := range b.Instrs {
+				st, isSt := in.(*ssa.Store)
+				if !isSt {
+					continue
+				}
+				fa, isFA := st.Addr.(*ssa.FieldAddr)
+				if !isFA || fieldName(fa) != "Type" || fieldOwner(fa) != "ServiceVolumeConfig" {
+					continue
+				}
+				val, isConst := prog.ConstString(st.Val)
+				if !isConst {
+					continue
+				}
+				n++
+				key := fmt.Sprintf("%s :: Type = %q decided by the source only", c.P.FuncID(fn), val)
+				var offending []string
+				for _, d := range prog.Info(fn).TransitiveControlDeps(b) {
+					iff, isIf := d.Branch.Instrs[len(d.Branch.Instrs)-1].(*ssa.If)
+					if !isIf {
+						continue
+					}
+					if why := notFromSource(iff.Cond, fa.X, 8); why != "" {
+						offending = append(offending, why+" ["+c.P.InstrPos(iff)+"]")
+					}
+				}
+				sort.Strings(offending)
+				out = append(out, verdict(len(offending) == 0, rule, key, c.P.InstrPos(st),
+					"every branch that decides this store is computed from the volume's Source (or from the text being parsed)",
+					"the classification also depends on "+strings.Join(offending, "; ")+": two specs with the same source can get different types"))
+			}
+		}
+	}
+	if n == 0 {
+		out = append(out, bad(rule, "format :: classification stores", "", "no constant store to ServiceVolumeConfig.Type in package format: the rule sees nothing"))
+	}
+	return out
+}
+
+// notFromSource returns "" when v is computed only from constants, string parameters and the Source field of base.
+func notFromSource(v ssa.Value, base ssa.Value, depth int) string {
+	if depth == 0 {
+		return "a value too deep to follow"
+	}
+	switch x := v.(type) {
+	case *ssa.Const:
+		return ""
+	case *ssa.Parameter:
+		if isStringType(x.Type()) || isIntType(x.Type()) {
+			return ""
+		}
+		return "parameter " + x.Name()
+	case *ssa.BinOp:
+		if w := notFromSource(x.X, base, depth-1); w != "" {
+			return w
+		}
+		return notFromSource(x.Y, base, depth-1)
+	case *ssa.UnOp:
+		if x.Op == token.MUL {
+			if fa, ok := x.X.(*ssa.FieldAddr); ok {
+				if fieldName(fa) == "Source" {
+					return ""
+				}
+				return "field " + fieldName(fa)
+			}
+			return "a load from memory other than the Source field"
+		}
+		return notFromSource(x.X, base, depth-1)
+	case *ssa.Call:
+		if _, isB := x.Call.Value.(*ssa.Builtin); !isB && x.Call.StaticCallee() == nil {
+			return "the result of a dynamic call"
+		}
+		for _, a := range x.Call.Args {
+			if w := notFromSource(a, base, depth-1); w != "" {
+				return w
+			}
+		}
+		return ""
+	case *ssa.Phi:
+		for _, e := range x.Edges {
+			if w := notFromSource(e, base, depth-1); w != "" {
+				return w
+			}
+		}
+		return ""
+	case *ssa.Extract:
+		return notFromSource(x.Tuple, base, depth-1)
+	case *ssa.Convert:
+		return notFromSource(x.X, base, depth-1)
+	case *ssa.ChangeType:
+		return notFromSource(x.X, base, depth-1)
+	case *ssa.Lookup:
+		if w := notFromSource(x.X, base, depth-1); w != "" {
+			return w
+		}
+		return notFromSource(x.Index, base, depth-1)
+	case *ssa.Slice:
+		return notFromSource(x.X, base, depth-1)
+	case *ssa.Next, *ssa.Range:
+		return ""
+	}
+	return fmt.Sprintf("%T", v)
+}
+
+// ---------------------------------------------------------------------------
+// TREEPATH: the rule tables (mergers, unicity indexers, transformers, casts,
+// path resolvers, defaults) are selected by matching the tree.Path of a value
+// against patterns segment by segment. A segment taken from the document (a
+// service name, a mapping key) must therefore enter a path through Path.Next,
+// which escapes the separator; tree.NewPath joins its arguments verbatim and a
+// string conversion does no escaping either. Every call of NewPath with two or
+// more arguments has constant arguments only (NewPath(x) alone is Path(x), the
+// same as Next on the empty path), a variadic pass-through is checked at its
+// callers, and no concatenation is converted to tree.Path outside package tree.
+// ---------------------------------------------------------------------------
+
+func (c *Ctx) TREEPATH(rule string) []report.Obligation {
+	var out []report.Obligation
+	n := 0
+	// segs enumerates the segments held by a []string value: (values, number of segments, problem)
+	var segs func(fn *ssa.Function, v ssa.Value, depth int) (dyn []string, count int, problem string)
+	segs = func(fn *ssa.Function, v ssa.Value, depth int) ([]string, int, string) {
+		if depth == 0 {
+			return nil, 0, "segments too deep to follow"
+		}
+		switch s := v.(type) {
+		case *ssa.Const:
+			return nil, 0, ""
+		case *ssa.Slice:
+			al, isAlloc := s.X.(*ssa.Alloc)
+			if !isAlloc {
+				return nil, 0, "path segments come from a slice the rule cannot enumerate"
+			}
+			var dyn []string
+			cnt := 0
+			for _, r := range *al.Referrers() {
+				if ia, ok := r.(*ssa.IndexAddr); ok {
+					for _, rr := range *ia.Referrers() {
+						if st, ok := rr.(*ssa.Store); ok && st.Addr == ssa.Value(ia) {
+							cnt++
+							if _, isC := st.Val.(*ssa.Const); !isC {
+								dyn = append(dyn, c.P.KeyTerm(st.Val, 2))
+							}
+						}
+					}
+				}
+			}
+			return dyn, cnt, ""
+		case *ssa.Call:
+			if bi, isB := s.Call.Value.(*ssa.Builtin); isB && bi.Name() == "append" && len(s.Call.Args) == 2 {
+				d1, n1, p1 := segs(fn, s.Call.Args[0], depth-1)
+				d2, n2, p2 := segs(fn, s.Call.Args[1], depth-1)
+				if p1 != "" {
+					return nil, 0, p1
+				}
+				return append(d1, d2...), n1 + n2, p2
+			}
+		case *ssa.Parameter:
+			// pass-through helper: the segments are those its callers supply
+			idx := -1
+			for i, pa := range fn.Params {
+				if pa == s {
+					idx = i
+				}
+			}
+			var dyn []string
+			cnt, callers := 0, 0
+			for _, g := range c.P.Funcs {
+				for _, cs2 := range callSites(g, func(com2 *ssa.CallCommon) bool { return com2.StaticCallee() == fn }) {
+					callers++
+					if idx < 0 || idx >= len(cs2.Common().Args) {
+						return nil, 0, "cannot match the forwarded parameter at " + c.P.InstrPos(cs2)
+					}
+					d, n2, p := segs(g, cs2.Common().Args[idx], depth-1)
+					if p != "" {
+						return nil, 0, p
+					}
+					for _, x := range d {
+						dyn = append(dyn, x+" (from "+c.P.FuncID(g)+")")
+					}
+					if n2 > cnt {
+						cnt = n2
+					}
+				}
+			}
+			if fn.Object() != nil && fn.Object().Exported() {
+				return nil, 0, "exported helper forwards caller-chosen segments to NewPath"
+			}
+			_ = callers
+			return dyn, cnt, ""
+		}
+		return nil, 0, "path segments come from a value the rule cannot enumerate"
+	}
+	checkCall := func(fn *ssa.Function, cs ssa.CallInstruction) {
+		com := cs.Common()
+		key := c.P.FuncID(fn) + " :: " + c.P.KeyTerm(cs.(ssa.Value), 2)
+		if len(com.Args) != 1 {
+			out = append(out, bad(rule, key, c.P.InstrPos(cs), "unexpected argument list of tree.NewPath"))
+			return
+		}
+		dyn, cnt, problem := segs(fn, com.Args[0], 4)
+		n++
+		switch {
+		case problem != "":
+			out = append(out, bad(rule, key, c.P.InstrPos(cs), problem))
+		case cnt <= 1:
+			out = append(out, ok(rule, key, c.P.InstrPos(cs), "at most one segment: the same as Path(\"\").Next(x)"))
+		default:
+			sort.Strings(dyn)
+			out = append(out, verdict(len(dyn) == 0, rule, key, c.P.InstrPos(cs), "all segments are constants",
+				"segment(s) "+strings.Join(dyn, ", ")+" taken from a variable are joined without escaping the separator: a name containing `.` yields a path with more segments, which no rule pattern matches"))
+		}
+	}
+	for _, fn := range c.P.Funcs {
+		if strings.HasPrefix(c.P.FuncID(fn), "tree.") {
+			continue
+		}
+		for _, cs := range callSites(fn, func(com *ssa.CallCommon) bool { return c.calleeID(com) == "tree.NewPath" }) {
+			checkCall(fn, cs)
+		}
+		for _, b := range fn.Blocks {
+			for _, in := range b.Instrs {
+				var x ssa.Value
+				var t types.Type
+				switch cv := in.(type) {
+				case *ssa.ChangeType:
+					x, t = cv.X, cv.Type()
+				case *ssa.Convert:
+					x, t = cv.X, cv.Type()
+				default:
+					continue
+				}
+				nt, isN := t.(*types.Named)
+				if !isN || nt.Obj().Name() != "Path" || nt.Obj().Pkg() == nil || !strings.HasSuffix(nt.Obj().Pkg().Path(), "/tree") {
+					continue
+				}
+				if bo, isB := x.(*ssa.BinOp); isB && bo.Op == token.ADD {
+					n++
+					out = append(out, bad(rule, c.P.FuncID(fn)+" :: tree.Path("+c.P.KeyTerm(x, 2)+")", c.P.InstrPos(in),
+						"a concatenation is converted to tree.Path: the appended segment is not escaped"))
+				}
+			}
+		}
+	}
+	c.Stats[rule+".sites"] = n
+	return out
+}
+
+// ---------------------------------------------------------------------------
+// GATEW: the switches of the load (loader.Options fields) are the caller's.
+// A store to a field of loader.Options is allowed only (a) in an option setter
+// (a function or closure of type func(*Options) writing through its parameter),
+// (b) on an Options value the function created itself (a composite literal or
+// the result of (*Options).clone()). A store through a *Options received from
+// the caller changes the switches of the enclosing load: a nested load that
+// sets SkipConsistencyCheck for itself would switch the check off for the
+// whole project.
+// ---------------------------------------------------------------------------
+
+func (c *Ctx) GATEW(rule string) []report.Obligation {
+	var out []report.Obligation
+	n := 0
+	for _, fn := range c.P.Funcs {
+		for _, b := range fn.Blocks {
+			for _, in := range b.Instrs {
+				st, isSt := in.(*ssa.Store)
+				if !isSt {
+					continue
+				}
+				fa, isFA := st.Addr.(*ssa.FieldAddr)
+				if !isFA || fieldOwner(fa) != "Options" {
+					continue
+				}
+				pt, isP := fa.X.Type().Underlying().(*types.Pointer)
+				if !isP {
+					continue
+				}
+				nt, isN := pt.Elem().(*types.Named)
+				if !isN || nt.Obj().Pkg() == nil || !strings.HasSuffix(nt.Obj().Pkg().Path(), "/loader") {
+					continue
+				}
+				// the switches are the boolean fields
+				if bt, isB := st.Val.Type().Underlying().(*types.Basic); !isB || bt.Kind() != types.Bool {
+					continue
+				}
+				n++
+				key := c.P.FuncID(fn) + " :: Options." + fieldName(fa) + " written"
+				base := fa.X
+				for {
+					if phi, isPhi := base.(*ssa.Phi); isPhi && len(phi.Edges) > 0 {
+						base = phi.Edges[0]
+						continue
+					}
+					break
+				}
+				good, why := false, ""
+				switch x := base.(type) {
+				case *ssa.Alloc:
+					good, why = true, "on an Options value created in this function"
+				case *ssa.Call:
+					if cal := x.Call.StaticCallee(); cal != nil && (cal.Name() == "clone" || cal.Name() == "toOptions") && c.P.InModule(cal) {
+						good, why = true, "on the result of "+c.P.FuncID(cal)
+					}
+				case *ssa.Parameter:
+					sig := fn.Signature
+					if sig.Params().Len() == 1 && sig.Results().Len() == 0 && sig.Recv() == nil {
+						good, why = true, "option setter func(*Options)"
+					}
+					if sig.Recv() != nil && len(fn.Params) > 0 && fn.Params[0] == x && fn.Object() != nil && fn.Object().Exported() {
+						good, why = true, "exported setter method of Options, called by the API user on their own options"
+					}
+				}
+				out = append(out, verdict(good, rule, key, c.P.InstrPos(st), why,
+					"a field of the caller's Options is written through "+c.P.KeyTerm(base, 2)+": the switch changes for the enclosing load and for every later use of the same Options, not only for the nested load"))
+			}
+		}
+	}
+	if n == 0 {
+		out = append(out, bad(rule, "Options :: writers", "", "no store to a loader.Options field found: the rule sees nothing"))
+	}
 	return out
 }
